@@ -58,6 +58,9 @@ var interpolateTypeCastMapping = map[tree.Path]interp.Cast{
 	servicePath("secrets", tree.PathMatchList, "mode"):                         toInt,
 	servicePath("stdin_open"):                                                  toBoolean,
 	servicePath("tty"):                                                         toBoolean,
+	servicePath("build", "ulimits", tree.PathMatchAll):                         toInt,
+	servicePath("build", "ulimits", tree.PathMatchAll, "hard"):                 toInt,
+	servicePath("build", "ulimits", tree.PathMatchAll, "soft"):                 toInt,
 	servicePath("ulimits", tree.PathMatchAll):                                  toInt,
 	servicePath("ulimits", tree.PathMatchAll, "hard"):                          toInt,
 	servicePath("ulimits", tree.PathMatchAll, "soft"):                          toInt,
